@@ -194,7 +194,7 @@ theorem C02_tee_transparent (cfg : Cfg) (env : Env) (st0 : Mask) (i : Input) (fu
   unfold run
   split
   · rfl
-  · rw [loop_tee cfg fuel false (init env st0 i) (Or.inr ⟨rfl, rfl⟩)]
+  · rw [loop_tee cfg fuel false (init env st0 i) (Or.inr ⟨rfl, rfl, rfl⟩)]
 
 /-! ### The server name of a reused feature value -/
 
@@ -266,6 +266,41 @@ theorem C02_servername_explicit (l : List SniSess) :
   | cons x rest ih =>
     obtain ⟨d, r, s2s, k⟩ := x
     cases k <;> simp [sessions, negotiateName, ih]
+
+/-! ### `Session.Feature` on the protected stream; sessions that share a negotiator -/
+
+/-- **The advertised-features map is that of the current stream.**  `negotiateSession` wipes
+`Session.features` whenever a new `io.ReadWriter` is installed, so once a TLS layer is in place
+everything `Session.Feature` reports was advertised by a features list read *inside* that layer —
+nothing a peer (or an attacker) advertised in clear text before `<proceed/>` is ever reported as a
+feature of the protected stream.  For every configuration, connection kind, peer and outcome
+(session or error). -/
+theorem C02_features_cache_is_current_stream (cfg : Cfg) (env : Env) (st0 : Mask) (i : Input) (fuel : Nat)
+    (ht : tlsAfter cfg env st0 i fuel = true) :
+    ∀ x ∈ featuresAfter cfg env st0 i fuel, x.2 = true :=
+  run_features cfg env st0 i fuel ht
+
+/-- negotiator.go: the closure returned by `negotiator` (what `NewNegotiator` hands out, shared by
+every session negotiated with it) assigns to no variable of the enclosing function: the
+first-features-list flag, the tee handle and the stream config live in the per-session
+`negotiatorState` -/
+theorem C02_gen_negotiator_closure_writes_nothing : Generated.C02.negotiatorSharedWrites = some [] := by
+  decide
+
+/-- **Sessions are independent of each other.**  A negotiator value has no mutable state in the
+model (the first-list flag is a field of the session, set by `init`), and a STARTTLS feature
+value is never changed by a session (`C02_feature_value_unchanged`): in a history of sessions
+negotiated with one negotiator and one feature value, every session's trace and outcome are those
+of the same session run alone — in particular the downgrade protection of the first features list
+is not used up by an earlier session. -/
+theorem C02_sessions_independent (cap : Option Name) (specs : List SessionSpec) :
+    history cap specs =
+      specs.map fun x => run x.cfg ⟨x.domain, x.remote, cap, x.conn⟩ x.state0 x.input x.fuel := by
+  induction specs generalizing cap with
+  | nil => rfl
+  | cons x rest ih =>
+    simp only [history, List.map_cons]
+    rw [C02_feature_value_unchanged, ih]
 
 /-! ### Bytes: units split across reads, re-chunking
 
